@@ -1,6 +1,131 @@
 import EupsModel.Drv.Util
+import EupsModel.Model.FsEff
 namespace EupsModel.Drv.C08
-open Lean EupsModel EupsModel.Drv
-/-- placeholder until the C08 model exists -/
-def handle : Handler := fun _ => throw "model C08 not built"
+open Lean EupsModel EupsModel.Drv EupsModel.FsEff
+
+def natOf (j : Json) : Except String Nat := j.getNat?
+def jn (n : Nat) : Json := Json.num n
+
+def rpathOfList : List Json → Except String RPath
+  | [k, p, x] => do
+    match ← k.getStr? with
+    | "v" => pure (.vfile (← natOf p) (← natOf x))
+    | "c" => pure (.cfile (← natOf p) (← natOf x))
+    | s => throw s!"record kind {s}"
+  | _ => throw "record path"
+
+/-- `["main"|"tmp", "v"|"c", p, x]` or `["stale", "v"|"c", p, x, i]` -/
+def fpathOfJson (j : Json) : Except String FPath := do
+  match (← j.getArr?).toList with
+  | k :: rest =>
+    match ← k.getStr? with
+    | "main" => pure (.main (← rpathOfList rest))
+    | "tmp" => pure (.tmp (← rpathOfList rest))
+    | "stale" =>
+      match rest with
+      | [a, b, c, i] => pure (.stale (← rpathOfList [a, b, c]) (← natOf i))
+      | _ => throw "stale path"
+    | s => throw s!"path kind {s}"
+  | [] => throw "empty path"
+
+def rpathToList : RPath → List Json
+  | .vfile p v => [Json.str "v", jn p, jn v]
+  | .cfile p t => [Json.str "c", jn p, jn t]
+
+def fpathToJson : FPath → Json
+  | .main r => Json.arr (Json.str "main" :: rpathToList r).toArray
+  | .tmp r => Json.arr (Json.str "tmp" :: rpathToList r).toArray
+  | .stale r i => Json.arr (Json.str "stale" :: rpathToList r ++ [jn i]).toArray
+
+def contentOfJson (j : Json) : Except String FileC := do
+  match j with
+  | Json.str "empty" => pure .empty
+  | Json.str "part" => pure .part
+  | _ =>
+    match j.getObjVal? "ver" with
+    | .ok a =>
+      let es ← (← a.getArr?).toList.mapM fun e => do
+        match (← e.getArr?).toList with
+        | [f, m] => pure ({ flavor := ← natOf f, modified := ← m.getBool? } : VEntry)
+        | _ => throw "ver entry"
+      pure (.complete (.ver es))
+    | .error _ =>
+      let a ← j.getObjVal? "chain"
+      let es ← (← a.getArr?).toList.mapM fun e => do
+        match (← e.getArr?).toList with
+        | [f, v, m] => pure ({ flavor := ← natOf f, version := ← natOf v, modified := ← m.getBool? } : CEntry)
+        | _ => throw "chain entry"
+      pure (.complete (.chain es))
+
+def contentToJson : FileC → Json
+  | .empty => Json.str "empty"
+  | .part => Json.str "part"
+  | .complete (.ver es) => Json.mkObj [("ver", Json.arr (es.map fun e => Json.arr #[jn e.flavor, Json.bool e.modified]).toArray)]
+  | .complete (.chain es) =>
+    Json.mkObj [("chain", Json.arr (es.map fun e => Json.arr #[jn e.flavor, jn e.version, Json.bool e.modified]).toArray)]
+
+def fsOfJson (j : Json) : Except String Fs := do
+  let dirs ← (← jarr j "dirs").mapM natOf
+  let files ← (← jarr j "files").mapM fun e => do
+    match (← e.getArr?).toList with
+    | [p, c] => pure (← fpathOfJson p, ← contentOfJson c)
+    | _ => throw "file entry"
+  pure { dirs := dirs, files := files }
+
+def fsToJson (fs : Fs) : Json :=
+  Json.mkObj [("dirs", Json.arr (fs.dirs.map jn).toArray),
+    ("files", Json.arr (fs.files.map fun (p, c) => Json.arr #[fpathToJson p, contentToJson c]).toArray)]
+
+def optNat (j : Json) (k : String) : Except String (Option Nat) :=
+  match j.getObjVal? k with
+  | .ok Json.null => pure none
+  | .ok v => do pure (some (← natOf v))
+  | .error _ => pure none
+
+def cmdOfJson (j : Json) : Except String Cmd := do
+  match ← (← j.getObjVal? "op").getStr? with
+  | "declare" => pure (.declare (← jnat j "p") (← jnat j "v") (← jnat j "f") (← optNat j "tag") (← jbool j "force"))
+  | "untag" => pure (.untag (← jnat j "t") (← jnat j "p") (← jnat j "f") (← optNat j "v"))
+  | "undeclare" => pure (.undeclare (← jnat j "p") (← jnat j "v") (← jnat j "f"))
+  | s => throw s!"unknown command {s}"
+
+def effToJson : Eff → Json
+  | .mkdir p => Json.arr #[Json.str "mkdir", jn p]
+  | .rmdir p => Json.arr #[Json.str "rmdir", jn p]
+  | .creat f => Json.arr #[Json.str "creat", fpathToJson f]
+  | .trunc f => Json.arr #[Json.str "trunc", fpathToJson f]
+  | .write f _ last => Json.arr #[Json.str "write", fpathToJson f, Json.bool last]
+  | .close f => Json.arr #[Json.str "close", fpathToJson f]
+  | .rename a b => Json.arr #[Json.str "rename", fpathToJson a, fpathToJson b]
+  | .unlink f => Json.arr #[Json.str "unlink", fpathToJson f]
+
+def seenToJson : Seen → Json
+  | .absent => Json.str "absent"
+  | .garbled => Json.str "garbled"
+  | .flavors l => Json.mkObj [("flavors", Json.arr (l.map jn).toArray)]
+  | .assigns l => Json.mkObj [("assigns", Json.arr (l.map fun (f, v) => Json.arr #[jn f, jn v]).toArray)]
+
+def listingToJson : Option (List (Id × Id × List Id)) → Json
+  | none => Json.null
+  | some l => Json.arr (l.map fun (p, v, ts) => Json.arr #[jn p, jn v, Json.arr (ts.map jn).toArray]).toArray
+
+/-- `{"m":"c08","atomic":bool,"fs":{dirs,files},"cmd":{…},"flavors":[…]}` → the effect list of the command, the
+records it may touch, and for every crash point `k = 0 … n` the state left behind, what a reader makes of each
+targeted record, and the listing of a fresh reader per flavor. -/
+def handle : Handler := fun j => do
+  let cfg : Cfg := { atomic := ← jbool j "atomic" }
+  let fs ← fsOfJson (← j.getObjVal? "fs")
+  let cmd ← cmdOfJson (← j.getObjVal? "cmd")
+  let flavors ← (← jarr j "flavors").mapM natOf
+  let effs := effects cfg fs cmd
+  let tg := targets fs cmd
+  let states := (List.range (effs.length + 1)).map fun k =>
+    let s := crashAt cfg fs cmd k
+    Json.mkObj [("fs", fsToJson s),
+      ("seen", Json.arr (tg.map fun r => seenToJson (read s r)).toArray),
+      ("listing", Json.arr (flavors.map fun f => listingToJson (listing s f)).toArray)]
+  pure (Json.mkObj [("effects", Json.arr (effs.map effToJson).toArray),
+    ("targets", Json.arr (tg.map fun r => Json.arr (rpathToList r).toArray).toArray),
+    ("states", Json.arr states.toArray)])
+
 end EupsModel.Drv.C08
